@@ -1,2 +1,162 @@
-/-! Stub driver: the model driver for this property is not built yet. -/
-def main : IO Unit := IO.println "unimplemented"
+import JoblibModel.FilterArgs
+import JoblibModel.IOUtil
+/-! Driver for C07 (`filter_args`).
+
+Request (space-separated tokens, counts first so nothing is defaulted):
+
+  `OPS  np (name kind dflt){np}  SELF  na v{na}  nk (k v){nk}  ni key{ni}`
+
+* `OPS`  : non-empty string over `N` (repaired `filterArgs`), `O` (`filterArgsOld`, the pinned
+           tree), `B` (`rename (bind …)`, Python's binding) — one result per letter, joined by ` | `
+* `kind` : `po pk vp ko vk`; `dflt` : `-` or a value id
+* `SELF` : `F` (plain function) or `M name kind value` (bound method: first parameter of
+           `__func__` and the id of `__self__`)
+* `key`  : a name id, `*` or `**`
+
+Reply per op: `ok k=v …` (entries sorted by key: names ascending, then `*`, then `**`; `v` is a
+value id, `[v,…]` or `{k:v,…}` sorted by key) or `err <site>`; `bad-op` for anything malformed,
+for a signature that is not well-formed and for duplicate keyword names. -/
+open JoblibModel JoblibModel.FilterArgs JoblibModel.IOUtil
+
+def parseKind : String → Option Kind
+  | "po" => some .posOnly | "pk" => some .posKw | "vp" => some .varPos
+  | "ko" => some .kwOnly | "vk" => some .varKw | _ => none
+
+def optNat? (s : String) : Option (Option Nat) :=
+  if s = "-" then some none else (s.toNat?).map some
+
+/-- `n` groups parsed by `f`, which returns the item and the rest. -/
+def parseN {α : Type} (f : List String → Option (α × List String)) :
+    Nat → List String → Option (List α × List String)
+  | 0, ts => some ([], ts)
+  | n + 1, ts => do
+    let (a, ts) ← f ts
+    let (as, ts) ← parseN f n ts
+    pure (a :: as, ts)
+
+def parseCounted {α : Type} (f : List String → Option (α × List String)) :
+    List String → Option (List α × List String)
+  | [] => none
+  | c :: ts => do
+    let n ← c.toNat?
+    parseN f n ts
+
+def pParam : List String → Option (Param × List String)
+  | a :: b :: c :: ts => do
+    let n ← a.toNat?
+    let k ← parseKind b
+    let d ← optNat? c
+    pure (⟨n, k, d⟩, ts)
+  | _ => none
+
+def pNat : List String → Option (Nat × List String)
+  | a :: ts => do pure (← a.toNat?, ts)
+  | _ => none
+
+def pPair : List String → Option ((Nat × Nat) × List String)
+  | a :: b :: ts => do pure ((← a.toNat?, ← b.toNat?), ts)
+  | _ => none
+
+def pKey : List String → Option (Key × List String)
+  | "*" :: ts => some (.star, ts)
+  | "**" :: ts => some (.dstar, ts)
+  | a :: ts => do pure (.name (← a.toNat?), ts)
+  | _ => none
+
+def pSelf : List String → Option (Option (Param × Nat) × List String)
+  | "F" :: ts => some (none, ts)
+  | "M" :: a :: b :: c :: ts => do
+    let n ← a.toNat?
+    let k ← parseKind b
+    let v ← c.toNat?
+    pure (some (⟨n, k, none⟩, v), ts)
+  | _ => none
+
+/-! Canonical rendering (not part of the model): sort by key. -/
+def keyOrd : Key → Nat
+  | .name n => n + 2
+  | .star => 0
+  | .dstar => 1
+
+def keyLt (a b : Key) : Bool :=
+  match a, b with
+  | .name x, .name y => x < y
+  | .name _, _ => true
+  | .star, .dstar => true
+  | _, _ => false
+
+def insertBy {α : Type} (lt : α → α → Bool) (x : α) : List α → List α
+  | [] => [x]
+  | y :: r => if lt y x then y :: insertBy lt x r else x :: y :: r
+
+def sortBy {α : Type} (lt : α → α → Bool) : List α → List α
+  | [] => []
+  | x :: r => insertBy lt x (sortBy lt r)
+
+def showKey : Key → String
+  | .name n => toString n
+  | .star => "*"
+  | .dstar => "**"
+
+def showVal : Val → String
+  | .one v => toString v
+  | .seq vs => "[" ++ ",".intercalate (vs.map toString) ++ "]"
+  | .map kv => "{" ++ ",".intercalate ((sortBy (fun a b => a.1 < b.1) kv).map
+      (fun e => toString e.1 ++ ":" ++ toString e.2)) ++ "}"
+
+def showDict (d : Dict) : String :=
+  joinSp ("ok" :: (sortBy (fun a b => keyLt a.1 b.1) d).map (fun e => showKey e.1 ++ "=" ++ showVal e.2))
+
+def showErr : Err → String
+  | .kwOnlyAsPositional => "err kwOnlyAsPositional"
+  | .wrongNumber => "err wrongNumber"
+  | .unexpectedKeyword => "err unexpectedKeyword"
+  | .ignoreUndefined => "err ignoreUndefined"
+
+def showBindErr : BindErr → String
+  | .tooManyPositional => "err tooManyPositional"
+  | .multipleValues => "err multipleValues"
+  | .missing => "err missing"
+  | .unexpectedKeyword => "err unexpectedKeyword"
+
+def showRes : Except Err Dict → String
+  | .ok d => showDict d
+  | .error e => showErr e
+
+def runOp (s : Sig) (self : Option (Param × Nat)) (c : Call) (ig : List Key) : Char → Option String
+  | 'N' => some <| showRes <| match self with
+    | none => filterArgs s ig c
+    | some (p, v) => filterArgsMethod p v s ig c
+  | 'O' => some <| showRes <| match self with
+    | none => filterArgsOld s ig c
+    | some (p, v) => filterArgsMethodOld p v s ig c
+  | 'B' => some <| match self with
+    | none => match bind s c with
+      | .ok b => showDict (rename s b)
+      | .error e => showBindErr e
+    | some (p, v) => match bindMethod p v s c with
+      | .ok b => showDict (rename (p :: s) b)
+      | .error e => showBindErr e
+  | _ => none
+
+def handle (line : String) : String :=
+  match tokens line with
+  | ops :: ts =>
+    let r : Option String := do
+      let (s, ts) ← parseCounted pParam ts
+      let (self, ts) ← pSelf ts
+      let (args, ts) ← parseCounted pNat ts
+      let (kw, ts) ← parseCounted pPair ts
+      let (ig, ts) ← parseCounted pKey ts
+      if ts ≠ [] ∨ ops.isEmpty then none
+      let full : Sig := match self with
+        | none => s
+        | some (p, _) => p :: s
+      if ¬ decide (WF full) then none
+      if ¬ decide (CallWF ⟨args, kw⟩) then none
+      let outs ← ops.toList.mapM (runOp s self ⟨args, kw⟩ ig)
+      pure (" | ".intercalate outs)
+    r.getD "bad-op"
+  | _ => "bad-op"
+
+def main : IO Unit := lineLoop handle
